@@ -227,12 +227,23 @@ def _list_param_funcs(prog):
 
 
 def r_off(prog, R):
-    r = R.rule("R-C03-OFF", "compression offsets are message-relative: the name-list owner is entered only with an empty buffer (or offsets are stored relative)", floor=2, analysis="offset-kind dataflow + empty-buffer proof")
+    r = R.rule("R-C03-OFF", "compression offsets are message-relative (the name-list owner is entered only with an empty buffer) and belong to the full name written there", floor=3, analysis="offset-kind dataflow + empty-buffer proof")
     nw = prog.func("ares_dns_name_write")
     cs = nw.calls_to("ares_nameoffset_create")
     if not r.require(len(cs) == 1, "ares_dns_name_write: ares_nameoffset_create call not found"):
         return
     b, i, c = cs[0]
+    # what is registered for later compression is the whole name that starts at the recorded position
+    nm = nocast(call_arg(c, 1))
+    pn = [p["n"] for p in nw.params if "char" in p["ty"]]
+    written = {x["n"] for x in pn} if False else set()
+    for _, _, el in nw.elements():
+        if el["k"] == "asg" and is_var(nocast(el["e"]["l"])):
+            written.add(nocast(el["e"]["l"])["n"])
+    if nm is not None and nm.get("k") == "var" and nm["n"] in pn and nm["n"] not in written:
+        r.ok("registered name is the full name being written", nw.loc(c["ln"]))
+    else:
+        r.viol("registered name is the full name being written", nw.name, nw.loc(c["ln"]), "ares_dns_name_write registers '%s' for compression at the position where the whole name '%s' starts: a later name that ends in the registered text is compressed against it and reads back with the rest of this name appended (e.g. 'www' becomes 'www.example.com')" % (render(nm), pn[0] if pn else "name"))
     idx = nocast(call_arg(c, 2))
     kind = None
     if idx is not None and idx.get("k") == "var":
